@@ -182,7 +182,7 @@ def r3(ctx):
                                              and ana.res.callee(fe, c).func.qualname == mask_q for c in ast.walk(n.value)):
             uses.append(n.lineno)
     ctx.check(masked, fe, "the label_switching_cost given to UserArguments is data-dependent on the boundary mask",
-              line=v.lineno, role="masked-price",
+              line=v.lineno, role="masked-price" if masked else "masked-price:depends-only-on:" + ",".join(sorted(dep.params) or ["<constants>"]),
               expected=f"a definition data-dependent on {short(mask_q)}(...)",
               found=f"reaching value `{unparse(v)}` depends on parameters {sorted(dep.params)} only; the mask is computed at line(s) {uses} "
                     f"after/apart from the bundle" if not masked else "",
